@@ -335,6 +335,32 @@ def coq_mismatches_retry(ctx, tag, hdr, terms, chk, shard, targets):
     return None if mm is None else sorted(order[j] for j in mm)
 
 
+def c05_not_ready():
+    """why coq/C05's compiled relay model cannot be used as it is (None if it can)"""
+    import lib
+    d = os.path.join(lib.COQ, "C05")
+    newest_src = 0
+    for f in ("Model", "Proofs", "Sched", "Props"):
+        v, vo = os.path.join(d, f + ".v"), os.path.join(d, f + ".vo")
+        if not os.path.exists(v):
+            return "coq/C05/%s.v does not exist" % f
+        if not os.path.exists(vo):
+            return "coq/C05/%s.vo is not built (building coq/C05 is property C05's job)" % f
+        newest_src = max(newest_src, os.path.getmtime(v))
+    base = os.path.join(lib.COQ, "Common", "Base.vo")
+    for f in ("Model", "Proofs", "Sched", "Props"):
+        vo = os.path.join(d, f + ".vo")
+        if os.path.getmtime(vo) < os.path.getmtime(os.path.join(d, f + ".v")):
+            return "coq/C05/%s.v is newer than its .vo (being edited; building coq/C05 is property C05's job)" % f
+        if os.path.exists(base) and os.path.getmtime(vo) < os.path.getmtime(base):
+            return "coq/C05/%s.vo is older than Common/Base.vo" % f
+    order = ["Model", "Proofs", "Sched", "Props"]
+    for a, b in zip(order, order[1:]):
+        if os.path.getmtime(os.path.join(d, b + ".vo")) < os.path.getmtime(os.path.join(d, a + ".vo")):
+            return "coq/C05/%s.vo is older than %s.vo it depends on" % (b, a)
+    return None
+
+
 def run_go(ctx, cases, test="^TestVerifC04$", files=None, timeout=1500):
     return ctx.go_inpkg(MOD, ".", files or FILES, test, cases, extra_overlay=EXTRA, timeout=timeout)
 
@@ -369,24 +395,32 @@ def run(ctx):
     # this check then re-verifies everything that does not depend on it and says so in the evidence.
     base_files = ["C04/Props.v", "C04/Run.v", "C04/Examples.v"]
     relay_files = ["C04/PropsRelay.v", "C04/ExamplesRelay.v"]
-    ctx.extra_dirs = ["C05"]
-    nb0 = len(ctx.brokens)
-    ctx.coq_props(props_files=base_files[:1] + relay_files[:1] + base_files[1:] + relay_files[1:])
-    c05_err = [b for b in ctx.brokens[nb0:] if b["kind"] == "proof-obligation" and "first error: C05/" in b["what"]]
-    if c05_err:
-        del ctx.brokens[nb0:]
-        for k in ("obligations", "discharged"):
-            ctx.cov[k] = 0
-        ctx.cov["theorems"] = []
-        ctx.cov["assumptions_printed"] = {}
-        ctx.cov["relay_composition"] = ("NOT re-checked in this run: coq/C05 (owned by property C05) does not compile: "
-                                        + c05_err[0]["what"][-300:])
+    stale = c05_not_ready()
+    if stale:
+        # never build another property's directory from here (a non-terminating proof attempt in it
+        # would run under the shared lock): use coq/C05's compiled files only when they are current
+        ctx.cov["relay_composition"] = "NOT re-checked in this run: " + stale
         ctx.coq_props(props_files=base_files)
     else:
-        ctx.cov["relay_composition"] = "re-checked: C04_relay_gets_rest, C04_relay_direction_faultfree (over coq/C05's relay model)"
-        bad_h = ctx.hygiene(["C05"])
-        if bad_h:
-            ctx.broken("hygiene", "forbidden constructs in coq/C05: %s" % bad_h[:5])
+        ctx.extra_dirs = ["C05"]
+        nb0 = len(ctx.brokens)
+        ctx.coq_props(props_files=base_files[:1] + relay_files[:1] + base_files[1:] + relay_files[1:])
+        c05_err = [b for b in ctx.brokens[nb0:] if b["kind"] == "proof-obligation" and "C05/" in b["what"]]
+        if c05_err:
+            del ctx.brokens[nb0:]
+            for k in ("obligations", "discharged"):
+                ctx.cov[k] = 0
+            ctx.cov["theorems"] = []
+            ctx.cov["assumptions_printed"] = {}
+            ctx.cov["relay_composition"] = ("NOT re-checked in this run: coq/C05 (owned by property C05) does not compile: "
+                                            + c05_err[0]["what"][-300:])
+            ctx.extra_dirs = []
+            ctx.coq_props(props_files=base_files)
+        else:
+            ctx.cov["relay_composition"] = "re-checked: C04_relay_gets_rest, C04_relay_direction_faultfree (over coq/C05's relay model)"
+            bad_h = ctx.hygiene(["C05"])
+            if bad_h:
+                ctx.broken("hygiene", "forbidden constructs in coq/C05: %s" % bad_h[:5])
     lap("coq props")
     rc, out, res = run_go(ctx, [])
     lap("go table dump")
